@@ -19,18 +19,21 @@ def wfItems (wd : Nat → Nat) : Items → Prop
   | .cons _ _ _ body rest => wfSs wd body ∧ wfItems wd rest
 end
 
-theorem selfWidth_printConst (k : Int) (kw : Nat) (ks : Bool) : selfWidth (printConst k kw ks).1 = kw := by
-  unfold printConst; split <;> simp [selfWidth]
+theorem selfWidth_printConstU (k : Int) (kw : Nat) : selfWidth (printConstU k kw) = kw := by
+  unfold printConstU; split <;> simp [selfWidth]
 
-theorem selfSigned_printConst (k : Int) (kw : Nat) (ks : Bool) : selfSigned (printConst k kw ks).1 = false := by
-  unfold printConst; split <;> simp [selfSigned]
+theorem selfWidth_printConst (k : Int) (kw : Nat) (ks : Bool) : selfWidth (printConst k kw ks).1 = kw := by
+  cases ks <;> simp [printConst, selfWidth, selfWidth_printConstU]
+
+theorem selfSigned_printConstU (k : Int) (kw : Nat) : selfSigned (printConstU k kw) = false := by
+  unfold printConstU; split <;> simp [selfSigned]
 
 /-- A printed case key evaluates, in an unsigned `W ≥ kw`-bit context, to the key modulo `2^W`. -/
-theorem evalV_printConst (ρ : Nat → Int) (k : Int) (kw : Nat) (ks : Bool) (W : Nat) (hW : kw ≤ W)
-    (hk : k.natAbs < 2 ^ kw) : evalV ρ W false (printConst k kw ks).1 = tn W k := by
+theorem evalV_printConstU (ρ : Nat → Int) (k : Int) (kw : Nat) (W : Nat) (hW : kw ≤ W)
+    (hk : k.natAbs < 2 ^ kw) : evalV ρ W false (printConstU k kw) = tn W k := by
   have hlt : (k.natAbs : Int) < p2 kw := by rw [← p2_natCast]; exact_mod_cast hk
   have hle := p2_le hW
-  unfold printConst
+  unfold printConstU
   split
   · rename_i h0
     simp only [evalV, ext, Bool.false_and, Bool.false_eq_true, if_false]
@@ -55,12 +58,12 @@ theorem tn_inj {W : Nat} (hW : 0 < W) {a b : Int}
 
 theorem itemsSigned_printItems_cons (k : Int) (kw : Nat) (ks : Bool) (body : Stmts) (rest : Items) :
     itemsSigned (printItems (.cons k kw ks body rest)) = false := by
-  simp [printItems, itemsSigned, selfSigned_printConst]
+  simp [printItems, itemsSigned, selfSigned_printConstU]
 
 theorem itemsWidth_printItems_ge (k : Int) (kw : Nat) (ks : Bool) (body : Stmts) (rest : Items) :
     kw ≤ itemsWidth (printItems (.cons k kw ks body rest)) ∧
     itemsWidth (printItems rest) ≤ itemsWidth (printItems (.cons k kw ks body rest)) := by
-  simp only [printItems, itemsWidth, selfWidth_printConst]; omega
+  simp only [printItems, itemsWidth, selfWidth_printConstU]; omega
 
 /-- The two outcomes of a `case` lookup correspond. -/
 def RelOpt (wd : Nat → Nat) (ρ : Env) : Option Mods → Option Pending → Prop
@@ -81,7 +84,7 @@ theorem rel_execS (wd : Nat → Nat) (ρ : Env) :
     unfold storeF
     rw [selfWidth_print_target l hf.1, tn_tn_same]
   | .ite c t f, m, p, h, hf, hw => by
-    simp only [fitsS, fitsCond, Bool.and_eq_true, beq_iff_eq, decide_eq_decide] at hf
+    simp only [fitsS, fitsCond, condOk, Bool.and_eq_true, beq_iff_eq, decide_eq_decide] at hf
     simp only [wfS] at hw
     obtain ⟨⟨⟨hfit, hz⟩, hft⟩, hff⟩ := hf
     simp only [execF, printS, execV]
@@ -154,7 +157,7 @@ theorem rel_execItems (wd : Nat → Nat) (ρ : Env) (W : Nat) (t : Int) (hW0 : 0
     simp only [itemsOk, Bool.and_eq_true, decide_eq_true_eq] at hok
     have hge := itemsWidth_printItems_ge k kw ks body rest
     simp only [execItems, printItems, execVItems]
-    rw [evalV_printConst ρ k kw ks W (by omega) hok.1.1]
+    rw [evalV_printConstU ρ k kw W (by omega) hok.1.1]
     have hiff : tn W k = tn W t ↔ k = t := by
       apply tn_inj hW0
       rcases hcommon with ⟨h1, h2⟩ | ⟨h1, h2⟩
